@@ -294,7 +294,7 @@ func genLast(rng *rand.Rand, items []string, sorted bool) (string, string) {
 
 func genRemote(rng *rand.Rand, i int, phase string) (*Case, map[string]string) {
 	cls := map[string]string{}
-	c := &Case{SizedPage: -1}
+	c := &Case{SizedPage: -1, BadPage: -1}
 	switch r := rng.IntN(100); {
 	case r < 35:
 		c.Target = "tags"
@@ -356,6 +356,7 @@ func genRemote(rng *rand.Rand, i int, phase string) (*Case, map[string]string) {
 	c.NameField = rng.IntN(10) < 7
 	if rng.IntN(5) == 0 {
 		c.FailAt = 1 + rng.IntN(4)
+		c.FailErr = rng.IntN(len(callbackErrors))
 	}
 
 	// body size control
@@ -417,14 +418,28 @@ func genRemote(rng *rand.Rand, i int, phase string) (*Case, map[string]string) {
 		c.MaxMeta = int64(20 + rng.IntN(whole))
 		cls["size"] = "tight"
 	}
+	if rng.IntN(14) == 0 {
+		// a malformed body instead of a sized one
+		c.SizedPage, c.SizeMode, c.SizeDelta = -1, "", 0
+		if c.MaxMeta > 0 {
+			c.MaxMeta = int64(whole + 64)
+		}
+		c.BadPage = []int{0, 0, 1, 2, 3, -2, -2}[rng.IntN(7)]
+		c.BadKind = []string{"empty", "empty", "ws", "cut-1", "cut-half"}[rng.IntN(5)]
+		cls["size"] = fmt.Sprintf("bad-%s@%d", c.BadKind, min(c.BadPage, 2))
+	}
 	if c.Target == "referrers-tag" && c.SizedPage > 0 {
 		c.SizedPage = 0
+	}
+	if c.Target == "referrers-tag" && c.BadPage != -1 {
+		c.BadPage = 0
 	}
 	if phase == "rel" {
 		c.RelShape = []string{"prev-only", "first-only", "prev-then-next"}[(i/3)%3]
 		c.FailAt = 0
 		c.LinkExtra = 0
 		c.SizedPage = -1
+		c.BadPage, c.BadKind = -1, ""
 		c.MaxMeta = 0
 		c.LinkParams = rng.IntN(5)
 		if len(c.Items)+len(c.Refs) < 4 {
@@ -451,6 +466,17 @@ func genRemote(rng *rand.Rand, i int, phase string) (*Case, map[string]string) {
 
 var errCallback = errors.New("c15: callback failure")
 
+// callbackErrors is what a failing callback may return; the listing must
+// return an error that errors.Is that very error.
+var callbackErrors = []error{
+	errCallback,
+	io.EOF,
+	io.ErrUnexpectedEOF,
+	fmt.Errorf("c15: reading my own input: %w", io.EOF),
+	context.Canceled,
+}
+var callbackErrorNames = []string{"custom", "io.EOF", "io.ErrUnexpectedEOF", "wrapped-io.EOF", "context.Canceled"}
+
 func runRemote(rng *rand.Rand, i int, phase string) (res worker.Result) {
 	c, cls := genRemote(rng, i, phase)
 	sc := newScript(c)
@@ -473,7 +499,7 @@ func runRemote(rng *rand.Rand, i int, phase string) (res worker.Result) {
 			sc.mu.Lock()
 			reqsAtFail = sc.reqs
 			sc.mu.Unlock()
-			return errCallback
+			return callbackErrors[c.FailErr]
 		}
 		return nil
 	}
@@ -604,8 +630,9 @@ func judge(res *worker.Result, c *Case, cls map[string]string, sc *script, rt *c
 	pages := 0
 	var pageLens []string
 	nearLimit := false
-	overIdx, lenientIdx := -1, -1
+	overIdx, lenientIdx, badIdx := -1, -1, -1
 	budget := false
+	cbErr := callbackErrors[c.FailErr]
 	for k, s := range log {
 		if s.Status == http.StatusInternalServerError {
 			budget = true
@@ -614,6 +641,9 @@ func judge(res *worker.Result, c *Case, cls map[string]string, sc *script, rt *c
 			continue
 		}
 		pages++
+		if s.Bad != "" && badIdx < 0 {
+			badIdx = k
+		}
 		if len(pageLens) < 8 {
 			pageLens = append(pageLens, fmt.Sprint(s.End-s.Start))
 		}
@@ -678,6 +708,9 @@ func judge(res *worker.Result, c *Case, cls map[string]string, sc *script, rt *c
 
 	failed := c.FailAt > 0 && cbCalls >= c.FailAt
 	outcome := "complete"
+	if failed && overIdx < 0 {
+		lenientIdx = -1 // the callback failure decides
+	}
 	switch {
 	case overIdx >= 0:
 		outcome = "oversize"
@@ -690,14 +723,15 @@ func judge(res *worker.Result, c *Case, cls map[string]string, sc *script, rt *c
 		if listingAfter(overIdx) {
 			res.Violate("oversize-continued:"+c.Target, fmt.Sprintf("%s: requests were sent after the over-long response %d", c.Target, overIdx), witness())
 		}
-	case lenientIdx >= 0 && err != nil && !errors.Is(err, errCallback) && equal(delivered, before(lenientIdx)) && !listingAfter(lenientIdx):
+	case lenientIdx >= 0 && err != nil && !failed && equal(delivered, before(lenientIdx)) && !listingAfter(lenientIdx):
 		outcome = "oversize-ws-error"
 		res.Count("unjudged_trailing_ws_error", 1)
 	case failed:
 		outcome = "callback-failed"
-		if !errors.Is(err, errCallback) {
-			res.Violate("callback-error-lost:"+c.Target, fmt.Sprintf("%s: callback failed on call %d, listing returned %v", c.Target, c.FailAt, err), witness())
+		if !errors.Is(err, cbErr) {
+			res.Violate("callback-error-lost:"+c.Target+":"+callbackErrorNames[c.FailErr], fmt.Sprintf("%s: callback failed on call %d with %q (%s), listing returned %v", c.Target, c.FailAt, cbErr, callbackErrorNames[c.FailErr], err), witness())
 		}
+		res.Observe("callback_errors", c.Target+"/"+callbackErrorNames[c.FailErr])
 		if cbCalls != c.FailAt || callsAfterFail > 0 {
 			res.Violate("callback-after-failure:"+c.Target, fmt.Sprintf("%s: callback invoked %d times although call %d failed", c.Target, cbCalls, c.FailAt), witness())
 		}
@@ -709,7 +743,18 @@ func judge(res *worker.Result, c *Case, cls map[string]string, sc *script, rt *c
 			outcome = "oversize-ws-complete"
 			res.Count("unjudged_trailing_ws_complete", 1)
 		}
-		if err != nil {
+		if badIdx >= 0 {
+			// a malformed body: an error is the expected outcome; success is acceptable only with the complete list
+			res.Count("malformed_pages_served", 1)
+			if err != nil {
+				outcome = "malformed-error"
+			} else {
+				outcome = "malformed-no-error"
+				if !equal(delivered, expect) {
+					res.Violate("malformed-page-swallowed:"+c.Target+":"+log[badIdx].Bad, fmt.Sprintf("%s: response %d had a malformed body (%s, %d bytes); the listing reported success with %d of %d items", c.Target, badIdx, log[badIdx].Bad, log[badIdx].Body, len(delivered), len(expect)), witness())
+				}
+			}
+		} else if err != nil {
 			key := "unexpected-error:" + c.Target
 			if budget {
 				key = "listing-does-not-terminate:" + c.Target
